@@ -38,7 +38,7 @@ def apply_sched(lines, sched_of):
 
 def parse_rule(l):
     t = l.split(" ")
-    d = dict(sig=0, obs=1, req=[], single=[], follow=[], disc=[], brslot=-1, brA=[], brB=[])
+    d = dict(sig=0, obs=1, req=[], single=[], follow=[], disc=[], prq=[], brslot=-1, brA=[], brB=[])
     ints = lambda s: [int(x) for x in s.split(",") if x != ""]
     for x in t[2:]:
         if "=" not in x:
@@ -46,7 +46,7 @@ def parse_rule(l):
         a, b = x.split("=", 1)
         if a == "sig": d["sig"] = int(b)
         elif a == "obs": d["obs"] = 1 if b == "1" else 0
-        elif a in ("req", "single", "follow", "disc"): d[a] = ints(b)
+        elif a in ("req", "single", "follow", "disc", "prq"): d[a] = ints(b)
         elif a == "br":
             p = b.split(":")
             d["brslot"] = int(p[0]); d["brA"] = ints(p[1]) if len(p) > 1 else []; d["brB"] = ints(p[2]) if len(p) > 2 else []
@@ -164,6 +164,63 @@ def rescan_history(rng):
     return L
 
 
+def prq_corpus():
+    """Directed: a task that requests ONLY from inside providePriorValue (rule DSL: prq=).  No model counterpart."""
+    return [
+        ["db 0", "rule 0 sig=0 obs=1", "rule 2 sig=0 obs=0 req=0", "rule 5 sig=0 obs=1 prq=2", "set 0 1", "set 5 1", "build 5", "set 5 2", "build 5",
+         "set 0 2", "set 5 3", "build 5"],
+        ["db 1", "rule 0 sig=0 obs=1", "rule 1 sig=0 obs=1", "rule 2 sig=0 obs=0 req=0", "rule 3 sig=0 obs=0 req=1", "rule 5 sig=0 obs=1 prq=2 follow=3",
+         "rule 6 sig=0 obs=1 req=3 prq=2,5", "set 0 1", "set 1 1", "set 5 1", "set 6 1", "build 6", "set 5 2", "set 6 2", "build 6", "restart", "set 6 3", "set 1 2", "build 6"],
+    ]
+
+
+def prq_history(rng):
+    """Rules that request from providePriorValue only (prq alone / prq + must-follow / prq + ordinary requests), built, then re-run for their
+    OWN reason (their own observed state changes, or a signature edit with a restart over the database) so that a prior value exists."""
+    ni, nm = rng.randint(2, 3), rng.randint(1, 3)
+    usedb = rng.random() < 0.5
+    L = ["db %d" % (1 if usedb else 0)] + ["rule %d sig=0 obs=1" % i for i in range(ni)]
+    mids = list(range(ni, ni + nm))
+    for k in mids:
+        L.append("rule %d sig=0 obs=0 req=%s" % (k, ",".join(map(str, rng.sample(range(k), rng.randint(1, min(2, k)))))))
+    pk = list(range(ni + nm, ni + nm + rng.randint(1, 3)))     # the prq rules; a later one may use an earlier one
+    defs = {}
+    for k in pk:
+        lower = list(range(k))
+        prq = rng.sample(lower, rng.randint(1, min(2, len(lower))))
+        rest = [x for x in lower if x not in prq]
+        shape = rng.choice(["only", "only", "follow", "req"])
+        extra = ""
+        if shape == "follow" and rest:
+            extra = " follow=%s" % ",".join(map(str, rng.sample(rest, rng.randint(1, min(2, len(rest))))))
+        elif shape == "req" and rest:
+            extra = " req=%s" % ",".join(map(str, rng.sample(rest, rng.randint(1, min(2, len(rest))))))
+        defs[k] = (prq, extra)
+    rline = lambda k, sg: "rule %d sig=%d obs=1%s prq=%s" % (k, sg, defs[k][1], ",".join(map(str, defs[k][0])))
+    sg = {k: 0 for k in pk}
+    stamp = {k: 1 for k in pk}
+    for k in pk:
+        L.append(rline(k, 0))
+    for i in range(ni):
+        L.append("set %d %d" % (i, rng.randint(0, 5)))
+    for k in pk:
+        L.append("set %d 1" % k)
+    root = pk[-1]
+    L.append("build %d" % root)
+    for _ in range(rng.randint(2, 4)):
+        for k in rng.sample(pk, rng.randint(1, len(pk))):
+            if usedb and rng.random() < 0.25:
+                sg[k] += 1; L += [rline(k, sg[k]), "restart"]     # a signature edit: no usable prior value for this rule
+            else:
+                stamp[k] += 1; L.append("set %d %d" % (k, stamp[k]))
+        if rng.random() < 0.3:
+            L.append("set %d %d" % (rng.randrange(ni), rng.randint(0, 5)))
+        if usedb and rng.random() < 0.2:
+            L.append("restart")
+        L.append("build %d" % rng.choice(pk))
+    return L
+
+
 def cancel_fan_scenario(rng, w, nbuilds):
     """w independent leaves under one root, completions spread over [0, maxus) us from racing threads, cancellation from a foreign thread
     0-150 us after build() started: the drain loop of cancelRemainingTasks is entered with several tasks still computing, which then report
@@ -230,6 +287,7 @@ def oracle_build(b, info, sh, errs):
         if l.startswith("leftover-pending"):
             errs.append(("leftover-pending", "tasks were told inputsAvailable but the build returned without them: %s" % l))
     # per-task expectations
+    saw_prior = set()
     for i, l in enumerate(ev):
         t = l.split(" ")
         k = int(t[1])
@@ -250,12 +308,19 @@ def oracle_build(b, info, sh, errs):
             for f in rd["follow"]:
                 if f in pos_create and not (f in pos_complete and pos_complete[f] < i):
                     errs.append(("avail-before-must-follow", "inputsAvailable of %d delivered before must-follow key %d completed" % (k, f)))
+            # every input the task asked for (in start, and in providePriorValue when it was called) was delivered before
+            want = len(rd["req"]) + len(rd["single"]) + (len(rd.get("prq", [])) if k in saw_prior else 0)
+            got = set(int(x.split(" ")[2]) for x in ev[:i] if x.startswith("provide %d " % k))
+            missing = [sl for sl in range(want) if sl not in got]
+            if missing:
+                errs.append(("avail-before-input", "inputsAvailable of %d delivered while its requested input slot(s) %s had not been provided" % (k, missing)))
+        elif t[0] == "prior":
+            saw_prior.add(k)
         elif t[0] == "provide":
             slot, key, v = int(t[2]), int(t[3]), t[4]
-            keys = rd["req"] + rd["single"]
-            if rd["brslot"] >= 0 and rd["brslot"] < len(rd["req"]):
-                keys = keys + ["A/B"] * max(len(rd["brA"]), len(rd["brB"]))
-            if slot < len(rd["req"]) + len(rd["single"]) and keys[slot] != key:
+            keys = rd["req"] + rd["single"] + (rd.get("prq", []) if k in saw_prior else [])
+            fixed = len(keys)
+            if slot < fixed and keys[slot] != key:
                 errs.append(("provide-wrong-key", "slot %d of %d was requested for key %d but key %d was provided" % (slot, k, keys[slot], key)))
             if key in pos_create:
                 if not (key in pos_complete and pos_complete[key] < i):
@@ -285,8 +350,10 @@ def task_sequences(b, info):
             per.setdefault(int(t[1]), []).append(t)
     out = []
     for k, evs in per.items():
-        rd = d.get(k, dict(req=[], single=[], brslot=-1, brA=[], brB=[]))
+        rd = d.get(k, dict(req=[], single=[], prq=[], brslot=-1, brA=[], brB=[]))
         n = len(rd["req"]) + len(rd["single"])
+        if any(t[0] == "prior" for t in evs):
+            n += len(rd.get("prq", []))        # requested from inside providePriorValue: only when that callback happened
         if 0 <= rd["brslot"] < len(rd["req"]):
             for t in evs:
                 if t[0] == "provide" and int(t[2]) == rd["brslot"]:
@@ -401,7 +468,7 @@ def first_diff(a, b):
     return None
 
 
-def check_history(chk, ctx, base, scheds, tag, ref=None):
+def check_history(chk, ctx, base, scheds, tag, ref=None, use_model=True):
     """Run one history under every schedule in `scheds` (list of functions build-index -> schedule string, first = sync reference)."""
     drv, model, emodel, root = ctx["drv"], ctx["model"], ctx["emodel"], ctx["root"]
     infos = defs_per_build(base)
@@ -473,9 +540,11 @@ def check_history(chk, ctx, base, scheds, tag, ref=None):
                         chk.violation("handshake-correspondence", "the handshake transition system does not reproduce an observed build (%s, schedule %s): %s" % (hdr, sname, ans),
                                       dict(scenario=lines, schedule=sname, request=rq, answer=ans), found_input=False, broken="correspondence: Engine/Handshake.v")
         # (b) spec model
-        ml = emodel.run(r["sp"], r["tp"])
-        ca, cm = enginelib.canon_pair(r["out"], ml)
-        ctx["model_runs"] += 1
+        ca = cm = None
+        if use_model:
+            ml = emodel.run(r["sp"], r["tp"])
+            ca, cm = enginelib.canon_pair(r["out"], ml)
+            ctx["model_runs"] += 1
         if ca != cm:
             dfi = first_diff(ca, cm)
             ctx["model_disagreements"].append(dict(scenario=lines, schedule=sname, first_difference=dfi))
@@ -727,6 +796,19 @@ def run_in(chk, drv, model, emodel, root):
         check_history(chk, ctx, base, scheds, "d%d" % h)
         if ctx.get("hang"):
             break
+    # requests issued from providePriorValue (driver DSL prq=): judged by the protocol automaton and the ordering oracles only
+    pcorpus = prq_corpus() + [prq_history(rng) for _ in range(chk.n(10, 80))]
+    for h, base in enumerate(pcorpus):
+        if ctx.get("hang"):
+            break
+        ctx["hid"] = "p%d" % h
+        seeds = [rng.randrange(1 << 16) for _ in range(5)]
+        scheds = [("sync", lambda i: None)]
+        scheds += [("defer:%d" % s, (lambda s: lambda i: "defer:%d" % (s + i))(s)) for s in seeds[:2]]
+        scheds += [("mixed:%d" % seeds[2], (lambda s: lambda i: "mixed:%d" % (s + i))(seeds[2]))]
+        scheds += [("threads:%d" % seeds[3], (lambda s: lambda i: "threads:%d" % (s + i))(seeds[3])),
+                   ("threads:%d:20" % seeds[4], (lambda s: lambda i: "threads:%d:20" % (s + i))(seeds[4]))]
+        check_history(chk, ctx, base, scheds, "p%d" % h, use_model=False)
     t_corpus = time.time() - t0
 
     # ---- (b)+(c) generated histories under every schedule
@@ -827,7 +909,7 @@ def run_in(chk, drv, model, emodel, root):
     chk.cov.update(dict(histories=nh, small_graphs=ns, small_graph_orders=small_stats[:10], distinct_completion_orders=len(ctx["orders"]),
                         task_sequences_through_extracted_automaton=ctx["proto_checked"], builds_replayed_on_handshake_model=ctx["hs_checked"],
                         spec_model_runs=ctx["model_runs"], spec_model_disagreements=len(ctx["model_disagreements"]),
-                        stress_builds=nstress, hunt_builds=hunt_builds, tsan_builds=tsan_builds, directed_and_rescan_histories=len(corpus), seconds=dict(corpus=round(t_corpus, 1), histories=round(t_gen, 1), small=round(t_small, 1), stress=round(t_stress, 1), hunt=t_hunt)))
+                        stress_builds=nstress, hunt_builds=hunt_builds, tsan_builds=tsan_builds, directed_and_rescan_histories=len(corpus), prior_value_request_histories=len(pcorpus), seconds=dict(corpus=round(t_corpus, 1), histories=round(t_gen, 1), small=round(t_small, 1), stress=round(t_stress, 1), hunt=t_hunt)))
     chk.notes["partial"] = ("PARTIAL - data races are sampled under ThreadSanitizer (thorough tier), not proved; the handshake logic (any number of completer "
                             "threads, any interleaving) and the protocol automaton are proved; schedule independence of values is sampled on the implementation "
                             "and tied to the specification engine by the differential")
